@@ -45,6 +45,12 @@ def main():
     coefficient_tables(P, cv, C, ell, ('beta',))
     sm = L.make_summaries(cv)
     st = L.summary_terms(sm, ell)
+    # numeric triage of an undischarged clause: the summaries RECT / BETA_j are read as the real helpers (their own contracts are the
+    # coefficient_tables obligations above), so that sampled points are points of the conversion and not of an arbitrary function
+    _rr, _bc = cv.rect_radius, cv.beta_coeff
+    P.uf_env['RECT!0'] = lambda a, i: mp.mpf(_rr(C.Ellipsoid(float(a), float(i))))
+    for _j in range(8):
+        P.uf_env['BETA!%d' % _j] = lambda a, i, _j=_j: mp.mpf(_bc(C.Ellipsoid(float(a), float(i)))[_j])
     g2g = L.cut_grid2geo(cv, L.ell_flat)
     zone = S.integer('zone')
     east, north = real('east'), real('north')
